@@ -4,6 +4,7 @@ package queue
 
 import (
 	"fmt"
+	"math"
 	"sort"
 	"strings"
 	"time"
@@ -119,6 +120,27 @@ func envError(e string) bool {
 		}
 	}
 	return false
+}
+
+// qSat is the last instant an int64 nanosecond clock can name (year 2262), relative to the harness
+// epoch. A deadline or ready time the statement puts beyond it ("now + 290 years") cannot be stored
+// exactly by a backend that keeps nanoseconds in 64 bits; what matters is that the message does not
+// become ready / the lease does not end before that limit.
+var qSat = relNs(time.Unix(0, math.MaxInt64))
+
+func satAdd(a, b int64) int64 {
+	s := a + b
+	if b > 0 && s < a {
+		return math.MaxInt64
+	}
+	return s
+}
+
+func atOrSat(got, want int64) bool {
+	if want <= qSat {
+		return got == want
+	}
+	return got >= qSat
 }
 
 func capBatch(n int) int {
@@ -642,7 +664,7 @@ func (o *qOracle) validateDequeue(step int, prev, next Snap, r resolvedOp, res Q
 			return fail("C03", "lease-id-reused", step, "dequeue of %s reused lease id %s", it.ID, n.Lease)
 		}
 		o.issued[n.Lease] = true
-		if n.Until != now+int64(ttl) {
+		if !atOrSat(n.Until, satAdd(now, int64(ttl))) {
 			return fail("C03,C05", "lease-until", step, "dequeue of %s at %s ttl %s set lease_until %s", it.ID, msOf(now), ttl, msOf(n.Until))
 		}
 		if !sameImmutable(p, n) || n.Dead != "" {
@@ -720,11 +742,11 @@ func (o *qOracle) leaseEffect(step int, kind string, p Msg, next Snap, r resolve
 		if d < 0 {
 			d = 0
 		}
-		if !ok || n.State != "queued" || !clearedLease(n) || n.Next != now+int64(d) || n.Dead != "" || n.Attempt != p.Attempt || !sameImmutable(p, n) {
+		if !ok || n.State != "queued" || !clearedLease(n) || !atOrSat(n.Next, satAdd(now, int64(d))) || n.Dead != "" || n.Attempt != p.Attempt || !sameImmutable(p, n) {
 			return fail("C02,C05", "nack-effect", step, "nack(delay=%s) at %s: %s -> %v", d, msOf(now), fmtMsg(p), fmtOpt(n, ok))
 		}
 	case "ext":
-		if !ok || n.State != "leased" || n.Lease != p.Lease || n.Until != p.Until+int64(r.Dur) || n.Attempt != p.Attempt || !sameImmutable(p, n) || n.Dead != p.Dead {
+		if !ok || n.State != "leased" || n.Lease != p.Lease || !atOrSat(n.Until, satAdd(p.Until, int64(r.Dur))) || n.Attempt != p.Attempt || !sameImmutable(p, n) || n.Dead != p.Dead {
 			return fail("C02,C03", "extend-effect", step, "extend(%s): %s -> %v", r.Dur, fmtMsg(p), fmtOpt(n, ok))
 		}
 	case "dead":
